@@ -387,6 +387,27 @@ pub fn ring_ratio_ops(s: &mut Src) -> R {
     Ok(())
 }
 
+// ------------------------------------------------------------------ polynomial long division over a field
+// (witness search / replay for the Verus unit `poly_div`; AHashMap-based: native only)
+pub fn ring_poly_divrem(s: &mut Src) -> R {
+    use yui::poly::Poly;
+    type F = FF<5>;
+    type P = Poly<'x', F>;
+    let (n, m) = (s.small(0, 5) as usize, s.small(0, 3) as usize);
+    let mut fa = vec![]; let mut fb = vec![];
+    for _ in 0..=5 { fa.push(s.small(0, 4) as i32); }
+    for _ in 0..=3 { fb.push(s.small(0, 4) as i32); }
+    let mk = |c: &[i32], k: usize| P::from_iter(c.iter().take(k + 1).enumerate().map(|(i, &c)| (P::mono(i), F::from(c))));
+    let (a, b) = (mk(&fa, n), mk(&fb, m));
+    pre!(!b.is_zero());
+    reach!();
+    let (q, r) = a.div_rem(&b);
+    ob!(a == &(&q * &b) + &r, "Poly::div_rem::a==q*b+r");
+    ob!(r.is_zero() || r.lead_deg() < b.lead_deg(), "Poly::div_rem::remainder-degree-smaller");
+    ob!(&a / &b == q && &a % &b == r, "Poly::div/rem-agree-with-div_rem");
+    Ok(())
+}
+
 crate::harness_table!(RING:
     ring_div_round_i32, ring_div_round_i64, ring_div_round_i128, ring_div_round_const_i64, ring_div_round_const_i32,
     ring_int_units_i32, ring_int_divides_i32, ring_int_units_i64, ring_int_divides_i64,
@@ -395,6 +416,6 @@ crate::harness_table!(RING:
     ring_ff2p_inv [unwind 8], ring_ff3_inv [unwind 8], ring_ff5_inv [unwind 8], ring_ff7_inv [unwind 10], ring_ff46337_inv [unwind 30],
     ring_f2,
     ring_qint_addsub_i32, ring_qint_mul_i32, ring_gauss_units_i32 , ring_eisen_units_i32 [unwind 8], ring_gauss_divrem_i32, ring_eisen_divrem_i32,
-    ring_gauss_gcd [unwind 6], ring_ff5_gcd [unwind 6], ring_ratio_ops [unwind 8],
+    ring_gauss_gcd [unwind 6], ring_ff5_gcd [unwind 6], ring_ratio_ops [unwind 8], ring_poly_divrem [unwind 8],
     ring_qint_addsub_i64, ring_qint_mul_i64, ring_gauss_units_i64, ring_eisen_units_i64 [unwind 8], ring_gauss_divrem_i64, ring_eisen_divrem_i64,
 );
